@@ -165,3 +165,19 @@ Fixpoint argmin_by {A} (cost:A -> nat) (l:list A) (d:A) : A :=
   match l with [] => d | x::r => match r with [] => x | _ => let y := argmin_by cost r d in if cost y <? cost x then y else x end end.
 Definition o_model (n:nat) (o:zopt) : world := argmin_by (o_cost o) (filter (o_holds o) (worlds n)) [].
 Definition f_or_list (l:list form) : form := fold_right FOr FBot l.
+
+(* ---- ranking tables: dictionaries keyed by worlds (bit strings), values an integer or None ---- *)
+Definition wdict (V:Type) := list (world * V).
+Definition wdict_keys {V} (d:wdict V) : list world := map fst d.
+Fixpoint wdict_find {V} (d:wdict V) (w:world) : option V :=
+  match d with [] => None | (w', v)::r => if beq w' w then Some v else wdict_find r w end.
+Definition wdict_get {V R L} (d:wdict V) (w:world) : ctl R L V :=
+  match wdict_find d w with Some v => Next v | None => Raise end.
+(* d.get(w): None when the key is missing *)
+Definition wdict_getopt (d:wdict (option Z)) (w:world) : option Z :=
+  match wdict_find d w with Some v => v | None => None end.
+Definition is_none {A} (o:option A) : bool := match o with None => true | Some _ => false end.
+(* a < b where either side may be None (TypeError) *)
+Definition py_lt_opt {R L} (a b:option Z) : ctl R L bool :=
+  match a, b with Some x, Some y => Next (x <? y)%Z | _, _ => Raise end.
+Definition py_unopt {R L} (a:option Z) : ctl R L Z := match a with Some x => Next x | None => Raise end.
